@@ -437,7 +437,8 @@ impl Gen {
     /// batch size a forwarding layer might choose), optionally after a request and followed by another
     /// request and a second burst; optionally wrapped, so that the burst crosses hosting layers
     fn burst_cmd(&mut self, nvars: usize) -> Cmd {
-        let n1 = 33 + self.rng.below(48);
+        // now and then a burst larger than any plausible internal buffer (1024): nothing may be parked or lost on the way up
+        let n1 = if self.rng.coin(1, 4) { 1030 + self.rng.below(60) } else { 33 + self.rng.below(48) };
         let n2 = if self.rng.coin(1, 3) { 33 + self.rng.below(20) } else { 0 };
         let evt = 100 + self.rng.below(6);
         let mut t = Task::Ret;
